@@ -87,6 +87,27 @@ theorem seg_pre (h h' : Heap) (l : Lid) (pre : List Node) (m v : Option Node)
     simp [List.getLast?_append]
     exact fun e => this e.symm
 
+/-! ### `takeWhile` / `dropWhile` facts that core does not ship -/
+theorem mem_takeWhile_imp {p : Node → Bool} : ∀ {xs : List Node} {x : Node}, x ∈ xs.takeWhile p → p x = true
+  | c :: r, x, hx => by
+    rw [List.takeWhile_cons] at hx
+    by_cases e : p c = true
+    · rw [if_pos e] at hx
+      rcases List.mem_cons.1 hx with rfl | hx
+      · exact e
+      · exact mem_takeWhile_imp hx
+    · rw [if_neg e] at hx; simp at hx
+
+theorem takeWhile_eq_self {p : Node → Bool} : ∀ {xs : List Node}, (∀ x ∈ xs, p x = true) → xs.takeWhile p = xs
+  | [], _ => rfl
+  | c :: r, h => by
+    rw [List.takeWhile_cons, if_pos (h c (by simp)), takeWhile_eq_self (fun x hx => h x (by simp [hx]))]
+
+theorem dropWhile_eq_nil {p : Node → Bool} : ∀ {xs : List Node}, (∀ x ∈ xs, p x = true) → xs.dropWhile p = []
+  | [], _ => rfl
+  | c :: r, h => by
+    rw [List.dropWhile_cons, if_pos (h c (by simp)), dropWhile_eq_nil (fun x hx => h x (by simp [hx]))]
+
 /-! ### the cells after a write -/
 @[simp] theorem setNext_next (h : Heap) (n : Node) (v : Option Node) (i : Node) :
     (setNext h n v).next i = if i = n then v else h.next i := rfl
